@@ -775,3 +775,26 @@ pub proof fn lemma_try_remove_mid<N, const K: usize>(a0: Arena<N, K>, am: Arena<
 }
 
 // ---- end tree_lemmas ----
+
+// a leaf has no descendants
+pub proof fn lemma_desc_has_kid<N, const K: usize>(a: Arena<N, K>, n: usize, i: usize)
+    requires parents_ok(a), a.dom().contains(n), no_kids(a[n]), desc(a, n, i)
+    ensures false
+{
+    let f = choose|f: nat| is_desc(a, n, i, f);
+    lemma_is_desc_has_kid(a, n, i, f);
+}
+pub proof fn lemma_is_desc_has_kid<N, const K: usize>(a: Arena<N, K>, n: usize, i: usize, f: nat)
+    requires parents_ok(a), a.dom().contains(n), no_kids(a[n]), is_desc(a, n, i, f)
+    ensures false
+    decreases f
+{
+    let pp = a[i].parent.unwrap();
+    if pp == n {
+        let l = choose|l: int| 0 <= l < K && #[trigger] a[n].children[l] == Some(i);
+        assert(a[n].children[l].is_none());
+    } else {
+        lemma_is_desc_has_kid(a, n, pp, (f - 1) as nat);
+    }
+}
+
